@@ -1,9 +1,10 @@
 import Proofs.BCHBound
 import Kaira.BM
+import Proofs.Decoders
 
 /-! # Berlekamp–Massey decoder: what can be said for every code word -/
 namespace BMProofs
-open Kaira Kaira.BM Kaira.GF2m GF BCHBound Kaira.Codes Kaira.Dist CodesProofs Finset
+open Kaira Kaira.BM Kaira.GF2m GF BCHBound Kaira.Codes Kaira.Dist CodesProofs Finset BCHAbs
 
 /-! ### syndromes are additive -/
 theorem foldl_synd_xor (P ai : Nat) (a b : Nat) : ∀ (l : List Nat) (x y : Nat),
@@ -161,5 +162,69 @@ theorem bm_reduction (c : BchInst) (t : Nat) (hok : bchOk c = true) (ht : 2 * t 
   exact correct_add_of_zero c.P c.m t c.n (encode c.G msg) e (fun i hi => by
     simp only [List.mem_range'_1] at hi
     exact syndAt_codeword f msg i hi.1 (by omega))
+
+/-- a word below `2^n` with at most `2t` ones whose syndromes `w(α^j)`, `j = 1 … 2t`, all vanish is the zero word
+(the BCH-bound argument applied to the support of the word itself — it need not be a code word) -/
+theorem light_zero_syndromes_zero {c : BchInst} (f : OkFacts c) (t w : Nat) (hw : w < 2 ^ c.n) (hl : weight c.n w ≤ 2 * t)
+    (hz : ∀ i ∈ List.range' 1 (2 * t), syndAt c.P c.n w i = 0) : w = 0 := by
+  have := f.good
+  have := f.noZeroDivisors
+  have : IsDomain (Elt c.P) := NoZeroDivisors.to_isDomain _
+  by_contra hne
+  set S := (range c.n).filter (fun i => w.testBit i = true) with hS
+  have hSne : S.Nonempty := by
+    obtain ⟨i, hi⟩ := Nat.exists_testBit_of_ne_zero hne
+    refine ⟨i, Finset.mem_filter.mpr ⟨Finset.mem_range.mpr ?_, hi⟩⟩
+    by_contra hge
+    have : w < 2 ^ i := lt_of_lt_of_le hw (Nat.pow_le_pow_right (by decide) (by omega))
+    rw [Nat.testBit_lt_two_pow this] at hi
+    cases hi
+  have hsum : ∀ j, 1 ≤ j → j < 2 * t + 1 → ∑ i ∈ S, (alpha f ^ i) ^ j = 0 := by
+    intro j h1 h2
+    have hzj := hz j (by simp only [List.mem_range'_1]; omega)
+    unfold syndAt at hzj
+    have e : fpow c.P 2 j = (alpha f ^ j).val := Field18.fpow_model_eq (alpha f) j
+    simp only [e] at hzj
+    rw [foldl_eq_bitSum (alpha f ^ j) w c.n] at hzj
+    have hb : bitSum (alpha f ^ j) w c.n = 0 := Subtype.ext hzj
+    unfold bitSum at hb
+    rw [← Finset.sum_filter] at hb
+    rw [← hb]
+    apply Finset.sum_congr rfl
+    intro i _
+    rw [← pow_mul, ← pow_mul, mul_comm]
+  have := bch_bound (alpha f) c.n (2 * t + 1) f.order S (fun i hi => Finset.mem_range.mp (Finset.mem_filter.mp hi).1) hSne hsum
+  rw [hS, card_support] at this
+  omega
+
+/-- **certified output**: for a certified BCH instance and `2t < δ`, ANY word `out` that has all-zero syndromes and lies within
+distance `t` of the received word `code word ⊕ e` (weight of `e` at most `t`) is the transmitted code word — whatever produced
+it.  The check evaluates these two conditions on the implementation's corrected words; together with this theorem each such
+answer is correct without relying on the model of the Berlekamp–Massey recursion. -/
+theorem bm_output_certified (c : BchInst) (hok : bchOk c = true) (t : Nat) (ht : 2 * t < c.delta) (msg e out : Nat)
+    (he : e < 2 ^ c.n) (hw : weight c.n e ≤ t) (hout : out < 2 ^ c.n)
+    (hz : ∀ i ∈ List.range' 1 (2 * t), syndAt c.P c.n out i = 0)
+    (hd : weight c.n (out ^^^ (encode c.G msg ^^^ e)) ≤ t) : out = encode c.G msg := by
+  have f := facts_of_ok c hok
+  set cw := encode c.G msg with hcw
+  have hcwlt : cw < 2 ^ c.n := f.codeword_lt msg
+  have hwz : out ^^^ cw = 0 := by
+    apply light_zero_syndromes_zero f t (out ^^^ cw) (Nat.xor_lt_two_pow hout hcwlt)
+    · have e1 : out ^^^ cw = (out ^^^ (cw ^^^ e)) ^^^ e := by
+        apply Nat.eq_of_testBit_eq; intro i
+        simp only [Nat.testBit_xor]
+        cases out.testBit i <;> cases cw.testBit i <;> cases e.testBit i <;> rfl
+      rw [e1]
+      have := DecProofs.weight_xor_le c.n (out ^^^ (cw ^^^ e)) e
+      omega
+    · intro i hi
+      rw [syndAt_xor, hz i hi, Nat.zero_xor]
+      simp only [List.mem_range'_1] at hi
+      exact syndAt_codeword f msg i hi.1 (by omega)
+  apply Nat.eq_of_testBit_eq
+  intro i
+  have := congrArg (fun x => x.testBit i) hwz
+  simp only [Nat.testBit_xor, Nat.zero_testBit] at this
+  cases h1 : out.testBit i <;> cases h2 : cw.testBit i <;> simp_all
 
 end BMProofs
